@@ -43,12 +43,35 @@ class Tree:
     def __exit__(self, *a):
         self.close()
 
+class _EmptyCallable(list):
+    """A print handler that is a callable object whose truth value is False (an empty collection that collects)."""
+    def __init__(self, fn):
+        super().__init__()
+        self._fn = fn
+    def __call__(self, path, line, text):
+        self._fn(path, line, text)
+
+class _Method:
+    def __init__(self, fn):
+        self._fn = fn
+    def handle(self, path, line, text):
+        self._fn(path, line, text)
+
+_FORM = [0]
+def handler_form(fn):
+    """Any callable is a print handler: a function, a bound method, a functools.partial, a callable object that is falsy."""
+    import functools
+    _FORM[0] += 1
+    k = _FORM[0] % 4
+    return fn if k == 0 else _Method(fn).handle if k == 1 else functools.partial(lambda f, p, l, t: f(p, l, t), fn) if k == 2 else _EmptyCallable(fn)
+
 def read_ns(root, lookups=(), allow_unregulated=True, **kw):
     """Call pydsdl.read_namespace; return ("ok", [types], prints) or ("err", exception, prints)."""
     import pydsdl
     prints = []
     def ph(path, line, text):
         prints.append((str(path), line, text))
+    ph = handler_form(ph)
     try:
         r = pydsdl.read_namespace(root, list(lookups), print_output_handler=ph,
                                   allow_unregulated_fixed_port_id=allow_unregulated, **kw)
